@@ -697,13 +697,16 @@ class TemplateModel(object):
         try:
             path = self._find_path(
                 'templates.npy', 'templates.waveforms.npy', 'templates.waveforms.*.npy')
-            data = self._read_array(path, mmap_mode='r+')
+            data = self._read_array(path, mmap_mode='r')
             data = np.atleast_3d(data)
             assert data.ndim == 3
             assert data.dtype in (np.float32, np.float64)
             # WARNING: this will load the full array in memory, might cause memory problems
             empty_templates = np.all(np.all(np.isnan(data), axis=1), axis=1)
-            data[empty_templates, ...] = 0
+            if np.any(empty_templates):
+                # NOTE: work on a copy in memory so that the file on disk is never modified.
+                data = np.array(data)
+                data[empty_templates, ...] = 0
             n_templates, n_samples, n_channels_loc = data.shape
         except IOError:
             return
